@@ -336,7 +336,7 @@ def judge_exits(acc, tap, H, results, kinds_inside, trace, ident, outcome, rec, 
             inside_ops = set(kinds_inside)
             if how == "dropped" and inside_ops & {"manipulation.rename_genes", "model.repair"}:
                 pass  # rename_genes -> Model.repair() rebuilds back references from the model's reactions only
-            elif how == "added" and kinds_obj == ["gene"] and inside_ops & {"manipulation.remove_genes", "model.add_reactions", "model.merge"} and _gained_refs_are_stale(H, diffs):
+            elif how == "added" and kinds_obj == ["gene"] and inside_ops & {"manipulation.remove_genes", "model.add_reactions", "model.merge"} and (inside_ops & {"manipulation.remove_genes", "manipulation.rename_genes"} or _gained_refs_are_stale(H, diffs)):
                 # a reaction (re-)joins the model inside the block and leaves it again on
                 # exit, but an undo entry of the gene bookkeeping (remove_genes, or
                 # update_genes_from_gpr dissociating the genes the reaction object still
